@@ -19,6 +19,27 @@ Two layers.
     (iii) ExecComp(do_coloring=True) vs do_coloring=False.  Hooks count that the colored code paths ran
     (_TotalJacInfo.simul_coloring_jac_setter, ApproximationScheme._colored_column_iter,
     Coloring._apply_subtractions).
+
+(b2) CALL SHAPE ('calls' shards): the harness with 2-4 design variables and 2-3 responses (optionally an objective
+    declared after a constraint, promoted names != source names, desvar / constraint indices, array scalers) whose
+    driver has a total coloring - dynamic, or use_fixed_coloring(Coloring object | file) - and its uncolored twin
+    receive the same SEQUENCE of 5-7 calls: compute_totals / check_totals / Driver._compute_totals with no
+    arguments, only of=, only wrt=, both; lists in driver order (by name or by source name), permuted, in
+    declaration order, subsets, permuted subsets; return formats array / dict / flat_dict; driver_scaling;
+    coloring_info=False or a caller-owned dynamic ColoringMeta.  In a third of the sequences a one-sided custom call
+    comes first (before any coloring exists) and is followed at once by the driver-order call.  Every result of
+    both problems must equal the closed form A g'(x) restricted / permuted / scaled accordingly, so a coloring that
+    is applied to a jacobian laid out differently from the one it was made for, or a stored coloring replaced by
+    one made for other lists, shows as a wrong entry or an exception.  A sequence is judged up to its first
+    violation.
+
+(b3) PARTIAL COLORING OVER SOME COLUMNS ('partialsub' shards): explicit and implicit harness components with
+    declare_coloring(wrt=<'*' | first | middle | last | several inputs | glob | output columns of an implicit
+    component>, method cs/fd), dynamic or loaded from file; the other columns have analytic dense / analytic sparse
+    / uncolored approximated partials; approximations declared per column, per nonzero block or only implied by
+    declare_coloring.  Judged: totals through the component with the partial coloring == uncolored == closed
+    form, and again with a dynamic driver total coloring on top (which consumes the sub-jacobian sparsity the
+    component reports after coloring).
 """
 import itertools
 import random
@@ -35,9 +56,14 @@ RULE = ('contract layer: ALL boolean patterns of the enumerated shapes x {fwd, r
         'auto-substitution} (+ the recursive fallback calls), plus random and structured (arrow, block-diagonal + '
         'dense rows/cols, banded, Eisenstat-like) patterns up to 40x40; framework layer: random/structured '
         'patterns up to 8x8 x mode {fwd, rev, auto} x {direct, substitution} x scaling {none, array scalers with '
-        'driver_scaling}, partial coloring with cs/fd, ExecComp coloring; distinct = distinct (pattern, mode, '
-        'direct) resp. structural description; non-trivial = pattern has at least two nonzero columns and rows '
-        'resp. the coloring was actually used')
+        'driver_scaling}, partial coloring with cs/fd, ExecComp coloring; call-shape layer: random sequences of '
+        'compute_totals/check_totals/driver calls x {no args, of only, wrt only, both} x {driver order, source '
+        'names, permuted, declaration order, subset, permuted subset} x return format x driver_scaling x '
+        'coloring_info on problems with dynamic / fixed total coloring (sequence position of the first driver-order '
+        'call varied); partial-subset layer: declare_coloring(wrt=subset) x position of the subset x explicit / '
+        'implicit x analytic / approximated other columns x dynamic / fixed, alone and under a total coloring; '
+        'distinct = distinct (pattern, mode, direct) resp. structural description; non-trivial = pattern has at '
+        'least two nonzero columns and rows resp. the coloring was actually used')
 LEVEL_TEXT = ('exhaustive over the enumerated shapes for the coloring/reconstruction contract; sampled for larger '
               'patterns and for the framework paths')
 ASSUMPTIONS = ['matrix entries in [1, 2]: no cancellation, reconstruction is exact up to 1e-12 relative',
@@ -45,7 +71,12 @@ ASSUMPTIONS = ['matrix entries in [1, 2]: no cancellation, reconstruction is exa
                'Coloring._subtractions in list order; the reference does the same with its own three lines',
                'declared rows/cols of the harness component equal the true pattern, so the sparsity the framework '
                'detects is the pattern',
-               'min_improve_pct=0 so that a coloring is used whenever one is found']
+               'min_improve_pct=0 so that a coloring is used whenever one is found',
+               'call-shape layer: what driver_scaling / constraint indices mean for a variable that is named by its '
+               'source instead of its driver name is not judged (such combinations are not generated); a call whose '
+               'UNCOLORED twin already differs from the closed form is not judged (counted)',
+               'Driver._compute_totals() (private) is called without arguments only - it is what every optimizer '
+               'driver calls each iteration']
 MIN_JUDGED = {'quick': 30000, 'thorough': 250000}
 REQUIRED_COUNTERS = ['contract:evaluations', 'contract:fwd', 'contract:rev', 'contract:auto-direct',
                      'contract:auto-substitution', 'contract:recursive-fallback', 'obs:bidirectional-result',
@@ -53,7 +84,19 @@ REQUIRED_COUNTERS = ['contract:evaluations', 'contract:fwd', 'contract:rev', 'co
                      'hook:_colored_column_iter', 'hook:_apply_subtractions', 'obs:total-colored-vs-uncolored',
                      'obs:partial-colored-vs-uncolored', 'obs:execcomp-colored', 'cell:total/fwd', 'cell:total/rev',
                      'cell:total/auto', 'cell:total/substitution', 'cell:total/scaled', 'cell:partial/cs',
-                     'cell:partial/fd']
+                     'cell:partial/fd',
+                     'obs:calls-colored-vs-uncolored', 'cell:calls/none', 'cell:calls/wrt-only', 'cell:calls/of-only',
+                     'cell:calls/both', 'cell:calls/one-sided-custom',
+                     'cell:calls/one-sided-custom-before-coloring-exists', 'cell:calls/list-perm',
+                     'cell:calls/list-subset', 'cell:calls/list-subperm', 'cell:calls/dynamic',
+                     'cell:calls/fixed-file', 'cell:calls/fixed-object', 'cell:calls/api-check_totals',
+                     'cell:calls/api-driver', 'cell:calls/fmt-dict', 'cell:calls/fmt-flat_dict',
+                     'cell:calls/objective-declared-after-a-constraint', 'obs:calls-coloring-used/driver-order',
+                     'obs:calls-coloring-used-in-driver-order-call-after-custom-call',
+                     'obs:partialsub-colored-vs-uncolored', 'obs:partialsub-total-coloring-on-top-used',
+                     'cell:partialsub/all', 'cell:partialsub/first', 'cell:partialsub/middle',
+                     'cell:partialsub/last', 'cell:partialsub/several', 'cell:partialsub/implicit',
+                     'cell:partialsub/explicit', 'cell:partialsub/dynamic', 'cell:partialsub/fixed-file']
 SHARD_TIMEOUT = {'quick': 900, 'thorough': 3000}
 
 _state = {'acc': None, 'installed': False, 'depth': 0, 'ctx': None}
@@ -871,6 +914,9 @@ def build_h(case, tot=None, par=None):
                                   show_summary=False, show_sparsity=False)
     elif tot is not None:
         p.driver.use_fixed_coloring(tot)
+        # options only (the static coloring stays): a coloring without improvement is used as well
+        p.driver.declare_coloring(direct=case.get('direct', True), min_improve_pct=0., show_summary=False,
+                                  show_sparsity=False)
     import contextlib
     import io
     with contextlib.redirect_stdout(io.StringIO()):        # 'loading coloring from file ...'
@@ -1032,8 +1078,12 @@ def run_calls_case(case, acc):
                 sig = '%s:driver-order%s' % (sided, ':after-custom-calls-only' if when == 'after-custom-calls-only'
                                              else '')
             else:
-                kinds = sorted({kk for kk in (call['ofk'], call['wrtk']) if kk not in ('none', 'driver', 'src')})
-                sig = '%s:%s' % (sided, '+'.join(kinds))
+                kinds = sorted({kk for kk in (call['ofk'], call['wrtk'])
+                                if kk not in ('none', 'driver', 'src', 'declaration-order')})
+                sig = '%s:%s' % (sided, '+'.join(kinds) or 'driver-order')
+                if call['ofk'] == 'declaration-order':
+                    # its own mechanism: the list equals the responses' source names in declaration order
+                    sig = 'of-in-declaration-order:' + sig
             if call.get('ci') == 'own-dynamic':
                 sig += ':own-coloring_info'
                 acc.count('cell:calls/own-dynamic-coloring_info')
@@ -1303,10 +1353,10 @@ def shards(tier, seed):
     nf = 6 if tier == 'quick' else 16
     for k in range(nf):
         out.append({'kind': 'framework', 'seed': seed * 1000 + 300 + k, 'n': 50 if tier == 'quick' else 150})
-    for k in range(6 if tier == 'quick' else 16):
-        out.append({'kind': 'calls', 'seed': seed * 1000 + 500 + k, 'n': 24 if tier == 'quick' else 90})
+    for k in range(5 if tier == 'quick' else 16):
+        out.append({'kind': 'calls', 'seed': seed * 1000 + 500 + k, 'n': 40 if tier == 'quick' else 150})
     for k in range(4 if tier == 'quick' else 12):
-        out.append({'kind': 'partialsub', 'seed': seed * 1000 + 700 + k, 'n': 30 if tier == 'quick' else 100})
+        out.append({'kind': 'partialsub', 'seed': seed * 1000 + 700 + k, 'n': 30 if tier == 'quick' else 120})
     return out
 
 
